@@ -131,7 +131,11 @@ def judge(ctx, case):
 
 # ------------------------------------------------------------------ invalid arguments
 def _arg_grid():
-    bad = ["3", "a", None, 1j, [1, 2], {}]
+    import decimal
+
+    # values float() accepts but that cannot be combined with a Fraction or
+    # float coordinate (numeric str / bytes, Decimal), and plain junk
+    bad = ["3", "a", None, 1j, [1, 2], {}, decimal.Decimal("3"), b"2"]
     shapes = ["simple", "connected", "disjoint"]
     out = []
     for sk in shapes:
